@@ -342,6 +342,13 @@ define_function(data_md5)
 
         yr_md5_update(&md5_context, block_data + data_offset, data_len);
       }
+      else
+      {
+        // The data in this block can't be read, the result can't be the
+        // digest of exactly the requested bytes.
+        yr_md5_final(digest, &md5_context);
+        return_string(YR_UNDEFINED);
+      }
 
       past_first_block = true;
     }
@@ -472,6 +479,13 @@ define_function(data_sha1)
 
         yr_sha1_update(&sha_context, block_data + data_offset, data_len);
       }
+      else
+      {
+        // The data in this block can't be read, the result can't be the
+        // digest of exactly the requested bytes.
+        yr_sha1_final(digest, &sha_context);
+        return_string(YR_UNDEFINED);
+      }
 
       past_first_block = true;
     }
@@ -600,6 +614,13 @@ define_function(data_sha256)
 
         yr_sha256_update(&sha256_context, block_data + data_offset, data_len);
       }
+      else
+      {
+        // The data in this block can't be read, the result can't be the
+        // digest of exactly the requested bytes.
+        yr_sha256_final(digest, &sha256_context);
+        return_string(YR_UNDEFINED);
+      }
 
       past_first_block = true;
     }
@@ -691,6 +712,12 @@ define_function(data_checksum32)
 
         for (i = 0; i < data_len; i++)
           checksum += *(block_data + data_offset + i);
+      }
+      else
+      {
+        // The data in this block can't be read, the result can't be the
+        // digest of exactly the requested bytes.
+        return_integer(YR_UNDEFINED);
       }
 
       past_first_block = true;
@@ -784,6 +811,12 @@ define_function(data_crc32)
           checksum =
               crc32_tab[(checksum ^ *(block_data + data_offset + i)) & 0xFF] ^
               (checksum >> 8);
+      }
+      else
+      {
+        // The data in this block can't be read, the result can't be the
+        // digest of exactly the requested bytes.
+        return_integer(YR_UNDEFINED);
       }
 
       past_first_block = true;
